@@ -97,6 +97,24 @@ Example C17_nonvacuous :
   toy [108;115;32;45;108;32;120;32;124;32;120;97;114;103;115;32;108;115;32;124;32;103;32;108;115].
 Proof. vm_compute. reflexivity. Qed.
 
+(** Round 9: the two matchers of the alias builtin's model ARE the two regexes of alias.rs: equal, on every text, to the
+    search of the ASTs regenerated from the source on every run (Gen/BuiltinRegexes.v via drive/regexsites.py). For the
+    definition pattern the yes/no decision of [split_def] is tied (it also returns the two captured groups). *)
+From Cicada Require Import Base.Regex Gen.BuiltinRegexes Proofs.AliasRegexProofs.
+Theorem C17_alias_read_is_source_regex : forall s, is_name s = rx_search rx_alias_read s.
+Proof. exact is_name_is_source_regex. Qed.
+Theorem C17_alias_add_is_source_regex : forall s,
+  (match split_def s nil with Some _ => true | None => false end) = rx_search rx_alias_add s.
+Proof. exact split_def_is_source_regex. Qed.
+Check C17_alias_read_is_source_regex : forall s, is_name s = rx_search rx_alias_read s.
+Check C17_alias_add_is_source_regex : forall s,
+  (match split_def s nil with Some _ => true | None => false end) = rx_search rx_alias_add s.
+Example C17_source_regex_nonvacuous :
+  rx_search rx_alias_read (97 :: 46 :: 45 :: nil)%N = true /\ rx_search rx_alias_read (97 :: 61 :: nil)%N = false /\
+  rx_search rx_alias_add (97 :: 61 :: 120 :: nil)%N = true /\ rx_search rx_alias_add (97 :: 61 :: 10 :: nil)%N = false /\
+  rx_search rx_alias_add (61 :: 120 :: nil)%N = false.
+Proof. vm_compute. repeat split. Qed.
+
 Print Assumptions C17_once.
 Print Assumptions C17_head.
 Print Assumptions C17_nonhead.
@@ -105,3 +123,5 @@ Print Assumptions C17_table.
 Print Assumptions C17_listing_iff.
 Print Assumptions C17_listing_refuted.
 Print Assumptions C17_listing.
+Print Assumptions C17_alias_read_is_source_regex.
+Print Assumptions C17_alias_add_is_source_regex.
